@@ -75,7 +75,7 @@ type envEntry struct {
 // fmt.Sprintf("%s=...", key, ...) expression.
 func (p *Prog) envKeyOf(f *Func, e ast.Expr) string {
 	info := f.Pkg.TypesInfo
-	call, ok := ast.Unparen(e).(*ast.CallExpr)
+	call, ok := ast.Unparen(p.Deref(f, e)).(*ast.CallExpr)
 	if !ok {
 		return ""
 	}
